@@ -169,6 +169,19 @@ func c03Body(d c03Desc, tier string) func() {
 				echo.got = echo.got[:0]
 				var out json.RawMessage
 				var err error
+				if i%16 == 5 {
+					// a call without a parameters member behind calls that had one: the handler sees none (an error from
+					// GetParameters, or an empty/null document), never what an earlier call carried
+					echo.got = echo.got[:0]
+					var outn json.RawMessage
+					err := conn.Call(live, "t.r.Echo", nil, &outn)
+					st.cases++
+					if err != nil || len(echo.got) != 1 || !(strings.HasPrefix(echo.got[0], "ERR:") || echo.got[0] == "null" || echo.got[0] == "{}") {
+						fail("a call without parameters (after a call with %s): the handler read %v (err %v)", doc, echo.got, err)
+						break
+					}
+					echo.got = echo.got[:0]
+				}
 				if i%16 == 10 || i == d.To-d.From-1 {
 					// a oneway call with nothing behind it: the handler reads it although the client stays silent
 					// afterwards (and, for the last document of the batch, closes the connection at once)
